@@ -69,6 +69,7 @@ static inline uint32_t verif_libc_strcmp(uint8_t* a, uint8_t* b){ return (uint32
 static inline void verif_libc_abort(void){ abort(); }
 static inline void verif_libc_free(uint8_t* p){ free(p); }
 /* intrinsics */
+static inline void verif_llvm_trap(void){ verif_unreachable(); }
 static inline double verif_llvm_fmuladd_f64(double a, double b, double c){ return a * b + c; }
 static inline float verif_llvm_fmuladd_f32(float a, float b, float c){ return a * b + c; }
 static inline double verif_llvm_round_f64(double x){ return round(x); }
